@@ -164,6 +164,9 @@ func (p *ProbeImpl) Relay(tok probe.Token) (probe.Token, error) {
 	return q.Echo(tok)
 }
 
+// OnGaugeChange accepts every value (gauge is the object's second property).
+func (p *ProbeImpl) OnGaugeChange(v int32) error { return nil }
+
 func (p *ProbeImpl) OnLevelChange(v int32) error {
 	for i := 0; i < p.ValidatorYields; i++ {
 		zzsim.Yield("h.validator")
